@@ -60,6 +60,12 @@ func VH09a_ttl() {
 		verif.Reach("ttl-rejected")
 		return
 	}
+	var pipeIDs []uint32
+	sock.SetPipeEventHook(func(ev mangos.PipeEvent, p mangos.Pipe) {
+		if ev == mangos.PipeEventAttached {
+			pipeIDs = append(pipeIDs, p.ID())
+		}
+	})
 	side := vt.Listen(sock, "a")
 	peer := side.Peer("p1")
 	hopWord := proto == "xpair1" || proto == "pair1" || proto == "xstar" || proto == "star"
@@ -71,7 +77,8 @@ func VH09a_ttl() {
 	if verif.Param("big", 0) == 1 {
 		k += 252 // 253..252+K: around the largest TTL
 	}
-	peer.Deliver(wire(proto, k, 'T'))
+	sentT := wire(proto, k, 'T')
+	peer.Deliver(sentT)
 	peer.Deliver(wire(proto, 1, 'S')) // in-limit sentinel
 	var got *mangos.Message
 	var rerr error
@@ -98,6 +105,17 @@ func VH09a_ttl() {
 	if delivered {
 		verif.Reach("delivered")
 		verif.Assert(k <= limit, "C09/ttl/"+proto+"/delivered-beyond-limit")
+		if (proto == "xrep" || proto == "xrespondent") && len(pipeIDs) == 1 {
+			// raw mode hands the route on: the id of the arrival pipe, then every routing word as received - for a
+			// route of any length (a device needs exactly this to send the reply back)
+			h := got.Header
+			id := pipeIDs[0]
+			verif.Assert(len(h) == 4*(k+1), "C09/ttl/"+proto+"/raw-header-length")
+			if len(h) == 4*(k+1) {
+				verif.Assert(h[0] == byte(id>>24) && h[1] == byte(id>>16) && h[2] == byte(id>>8) && h[3] == byte(id), "C09/ttl/"+proto+"/raw-header-does-not-start-with-the-arrival-pipe-id")
+				verif.Assert(verif.BytesEq(h[4:], sentT[:4*k]), "C09/ttl/"+proto+"/raw-header-routing-words-changed")
+			}
+		}
 	} else {
 		verif.Reach("dropped")
 		verif.Assert(got.Body[n-1] == 'S', "C09/ttl/"+proto+"/sentinel-disturbed")
